@@ -77,6 +77,15 @@ class RepeatedNodeWrapperUpdateHandler(abc.ABC):
         ...
 
 
+def check_distinct(values: Iterable[base.RawModel]) -> None:
+    # A node can be at one place only: the same node given twice in one batch must be refused before anything changes.
+    seen = set()
+    for value in values:
+        if id(value) in seen:
+            raise ValueError('Cannot insert the same node more than once. Consider making a copy.')
+        seen.add(id(value))
+
+
 class RepeatedNodeWrapper(MutableSequence[_M]):
     def __init__(self, repeated: Repeated[_M], field: repeated_field) -> None:
         self._repeated = repeated
@@ -197,6 +206,7 @@ class RepeatedNodeWrapper(MutableSequence[_M]):
             return
         assert isinstance(value, Iterable)
         values = list(value)
+        check_distinct(values)
         r = indexes.range_from_index(index, len(self._repeated.items))
         if r.step == 1 and r.stop < r.start:
             r = range(r.start, r.start)  # empty slice: insert at start, like list does
@@ -250,6 +260,7 @@ class RepeatedNodeWrapper(MutableSequence[_M]):
 
     def extend(self, values: Iterable[_M]) -> None:
         values = list(values)
+        check_distinct(values)
         index = len(self._repeated.items)
         self._insert_tokens(index, values)
         for value in values:
